@@ -37,549 +37,22 @@ theorem noJ5Any_of_noAny (env : Env) (h : env.noAny = true) : env.noJ5Any = true
   | «enum» a b => rfl
   | noschema => rfl
 
-/-- what the encoder writes for a protobuf `Any` whose content unmarshals to `inner` -/
-theorem enc_any_pb (env : Env) (O : Oracle) (F : Nat) (url val : Bytes) (iroot : String)
-    (inner : PVal) (data : PTree) (hroot : encRoot env O (F + 1) iroot inner = .ok data)
-    (hu : isValidUtf8 (trimPrefix url anyPrefix) = true) :
-    ∃ tlit nlit vlit, encValue env O (F + 2) (.any true) (.anyPb url val .inn iroot inner) =
-      .ok (.obj (.cons typeKey tlit (.str (trimPrefix url anyPrefix) nlit)
-        (.cons valueKey vlit data (.nil .closed)))) := by
-  obtain ⟨tlit, htl⟩ := (appendString_total typeKey).2.1 (by decide)
-  obtain ⟨vlit, hvl⟩ := (appendString_total valueKey).2.1 (by decide)
-  obtain ⟨nlit, hnl⟩ := strNode_ok _ hu
-  refine ⟨tlit, nlit, vlit, ?_⟩
-  simp [encValue, hroot, htl, hvl, hnl]
-
-/-- the decoder built `WithProtoToAny` reading the framed value into a protobuf `Any` property -/
-theorem dec_any_pb (c : Cfg) (hmode : c.protoToAny = true) (hdepth : c.anyDepth < maxAnyDepth)
-    (props : List PropDef) (p : PropDef) (st : PS) (tn tlit nlit vlit : Bytes) (data : PTree)
-    (iroot : String) (fs : Fields)
-    (hf : p.field = .any true) (hp : p.path ≠ []) (hs : p.jsonName ∉ st.seen)
-    (hgb : groupBusy props p st.m = false) (hc : data.complete = true) (hd : data.depth ≤ 10000)
-    (hres : c.env.resolve tn = some iroot)
-    (hdec : decRootTree { c with anyDepth := c.anyDepth + 1 } iroot data = .ok fs)
-    (hne : fs ≠ []) :
-    decProp c props p
-        (.obj (.cons typeKey tlit (.str tn nlit) (.cons valueKey vlit data (.nil .closed)))) st =
-      .ok { m := updPath props p (some (.anyPb (anyPrefixB ++ tn) [] .inn iroot (.msg fs))) st.m,
-            seen := p.jsonName :: st.seen } := by
-  have hpe : p.path.isEmpty = false := by
-    cases hpp : p.path with
-    | nil => exact absurd hpp hp
-    | cons a b => rfl
-  have hpop : popValueAsBytes data = some data.render := by
-    unfold popValueAsBytes; simp [hc, hd]
-  have hvk : ascii "value" ≠ ascii "!type" := by decide
-  have hfe : fs.isEmpty = false := by
-    cases fs with
-    | nil => exact absurd rfl hne
-    | cons a b => rfl
-  have hnd : ¬ (c.anyDepth ≥ maxAnyDepth) := Nat.not_le.mpr hdepth
-  unfold decProp; rw [hf]
-  simp only [createField_fresh props p st hs hgb, Outcome.bind, hpe, Bool.false_eq_true, if_false]
-  simp only [finalType, finalType.typeKeyB, decAnyMembers, typeKey, valueKey, if_true, hvk, if_false,
-    ne_eq, not_true_eq_false, Option.isSome_none, Bool.false_eq_true, hpop, hnd, hres, hdec]
-  simp [finishAnyProp, Outcome.bind, hmode, closeOk, hfe]
-
-theorem stripPrefix_append : ∀ (pfx s : Bytes), stripPrefix pfx (pfx ++ s) = some s
-  | [], s => by simp [stripPrefix]
-  | p :: ps, s => by simp [stripPrefix, stripPrefix_append ps s]
-
-theorem trimPrefix_append (pfx s : Bytes) : trimPrefix (pfx ++ s) pfx = s := by
-  unfold trimPrefix; rw [stripPrefix_append]
-
-/-- **protobuf `Any`, one property, both directions**: for a codec built `WithProtoToAny` over a
-flat environment without j5 `Any` fields, not yet nested 100 `Any` values deep: a protobuf `Any`
-whose type URL is `type.googleapis.com/` + a resolvable name and whose content is a non-empty
-representable message `fs` of the resolved root is written as `{"!type": name, "value": data}` with
-`data` the codec's encoding of `fs`, and — provided that encoding is nested at most 10000 deep
-(`maxNestingDepth` of `encoding/json`, which `popValueAsBytes` runs into) — the decoder reading
-that value into a protobuf `Any` property stores `Any{type_url, content = fs}` again. -/
-theorem any_pb_roundtrip (c : Cfg) (hs : c.env.flat = true) (L : OracleLaws c.O)
-    (hC : c.env.noAny = true ∨ ChunkLaws c.O)
-    (hmode : c.protoToAny = true) (hj : c.env.noJ5Any = true) (hdepth : c.anyDepth < maxAnyDepth)
-    (props : List PropDef) (p : PropDef) (st : PS) (tn val : Bytes) (iroot : String) (fs : Fields)
-    (hf : p.field = .any true) (hp : p.path ≠ []) (hseen : p.jsonName ∉ st.seen)
-    (hgb : groupBusy props p st.m = false) (hu : isValidUtf8 tn = true)
-    (hres : c.env.resolve tn = some iroot) (hne : fs ≠ [])
-    (hok : valOk c.env c.O (.object iroot) (.msg fs) = true ∨
-      valOk c.env c.O (.oneof iroot) (.msg fs) = true) :
-    ∃ tlit nlit vlit data,
-      encValue c.env c.O (6 * (depthFields fs + 1) + 9 + 2) (.any true)
-          (.anyPb (anyPrefix ++ tn) val .inn iroot (.msg fs)) =
-        .ok (.obj (.cons typeKey tlit (.str tn nlit) (.cons valueKey vlit data (.nil .closed)))) ∧
-      (data.depth ≤ 10000 →
-        decProp c props p
-            (.obj (.cons typeKey tlit (.str tn nlit) (.cons valueKey vlit data (.nil .closed)))) st =
-          .ok { m := updPath props p (some (.anyPb (anyPrefixB ++ tn) [] .inn iroot (.msg fs))) st.m,
-                seen := p.jsonName :: st.seen }) := by
-  obtain ⟨data, henc, hdec⟩ := roundtrip_tree_flat_fuel { c with anyDepth := c.anyDepth + 1 } hs L
-    (Or.inr hj) iroot fs hok (6 * (depthFields fs + 1) + 9) (Nat.le_refl _)
-  have hch : (PVal.msg fs).chunksOk c.O = true := by
-    rcases hok with hok | hok
-    · exact valOk_chunksOk _ _ _ _ hok
-    · exact valOk_chunksOk _ _ _ _ hok
-  have hE : data.Enc := encRoot_enc c.env c.O (floatTextOk_of_laws c.O L) iroot (.msg fs) data
-    (hC.elim Or.inl (fun h => Or.inr ⟨h, hch⟩)) _ henc
-  obtain ⟨tlit, nlit, vlit, he⟩ := enc_any_pb c.env c.O (6 * (depthFields fs + 1) + 9)
-    (anyPrefix ++ tn) val iroot (.msg fs) data henc (by rw [trimPrefix_append]; exact hu)
-  rw [trimPrefix_append] at he
-  refine ⟨tlit, nlit, vlit, data, he, ?_⟩
-  intro hd
-  exact dec_any_pb c hmode hdepth props p st tn tlit nlit vlit data iroot fs hf hp hseen hgb
-    (enc_complete data hE) hd hres hdec hne
-
-/-! ## a bound on the nesting depth of the encoder's tree (for `popValueAsBytes`)
-
-The encoder's recursion spends at least one unit of fuel per level of the tree it builds, except
-for the `j5_json` chunk of an `Any`, which is inserted as it is. So for a value that holds no
-`j5_json` the tree is nested at most as deep as the fuel. -/
-
-mutual
-/-- no `j5_json` anywhere in the value -/
-def PVal.noJ5 : PVal → Bool
-  | .anyJ5 _ _ j5 _ _ inner => j5.isEmpty && inner.noJ5
-  | .anyPb _ _ _ _ inner => inner.noJ5
-  | .msg fs => noJ5F fs
-  | .list xs => noJ5L xs
-  | .map kvs => noJ5M kvs
-  | _ => true
-def noJ5F : List (Nat × PVal) → Bool
-  | [] => true
-  | (_, v) :: rest => v.noJ5 && noJ5F rest
-def noJ5L : List PVal → Bool
-  | [] => true
-  | v :: rest => v.noJ5 && noJ5L rest
-def noJ5M : List (Bytes × PVal) → Bool
-  | [] => true
-  | (_, v) :: rest => v.noJ5 && noJ5M rest
-end
-
-theorem noJ5_aget : ∀ (m : Fields) (k : Nat) (v : PVal), noJ5F m = true → aget k m = some v →
-    v.noJ5 = true
-  | [], _, _, _, h => by simp [aget] at h
-  | (k', v') :: rest, k, v, hm, h => by
-    simp only [noJ5F, Bool.and_eq_true] at hm
-    simp only [aget] at h
-    split at h
-    · cases h; exact hm.1
-    · exact noJ5_aget rest k v hm.2 h
-
-theorem noJ5_getPath : ∀ (path : List Nat) (m : Fields) (v : PVal), noJ5F m = true →
-    getPath m path = some v → v.noJ5 = true
-  | [], _, _, _, h => by simp [getPath] at h
-  | [k], m, v, hm, h => by simp only [getPath] at h; exact noJ5_aget m k v hm h
-  | k :: k2 :: r, m, v, hm, h => by
-    rw [getPath_cons2] at h
-    split at h
-    · next sub hsub =>
-      have := noJ5_aget m k _ hm hsub
-      simp only [PVal.noJ5] at this
-      exact noJ5_getPath (k2 :: r) sub v this h
-    · cases h
-
-theorem noJ5_mem_list : ∀ (xs : List PVal) (x : PVal), noJ5L xs = true → x ∈ xs → x.noJ5 = true
-  | [], _, _, h => by cases h
-  | a :: r, x, hx, h => by
-    simp only [noJ5L, Bool.and_eq_true] at hx
-    rcases List.mem_cons.mp h with rfl | h'
-    · exact hx.1
-    · exact noJ5_mem_list r x hx.2 h'
-
-theorem noJ5_mem_map : ∀ (kvs : List (Bytes × PVal)) (kv : Bytes × PVal), noJ5M kvs = true →
-    kv ∈ kvs → kv.2.noJ5 = true
-  | [], _, _, h => by cases h
-  | (k, v) :: r, x, hx, h => by
-    simp only [noJ5M, Bool.and_eq_true] at hx
-    rcases List.mem_cons.mp h with rfl | h'
-    · exact hx.1
-    · exact noJ5_mem_map r x hx.2 h'
-
-theorem membersOf_depth (n : Nat) : ∀ (es : List (Bytes × Bytes × PTree)),
-    (∀ e ∈ es, e.2.2.depth ≤ n) → (membersOf es).depth ≤ n
-  | [], _ => by simp [membersOf, PMembers.depth]
-  | (k, kr, v) :: t, h => by
-    simp only [membersOf, PMembers.depth]
-    exact Nat.max_le.mpr ⟨h (k, kr, v) List.mem_cons_self,
-      membersOf_depth n t (fun e he => h e (List.mem_cons_of_mem _ he))⟩
-
-theorem elemsOf_depth (n : Nat) : ∀ (ts : List PTree), (∀ t ∈ ts, t.depth ≤ n) →
-    (elemsOf ts).depth ≤ n
-  | [], _ => by simp [elemsOf, PElems.depth]
-  | a :: t, h => by
-    simp only [elemsOf, PElems.depth]
-    exact Nat.max_le.mpr ⟨h a List.mem_cons_self,
-      elemsOf_depth n t (fun e he => h e (List.mem_cons_of_mem _ he))⟩
-
-theorem strNode_depth (s : Bytes) (t : PTree) (h : strNode s = .ok t) : t.depth = 0 := by
-  unfold strNode at h
-  split at h
-  · cases h; rfl
-  · cases h
-  · cases h
-
-theorem scalarNode_depth (O : Oracle) (k : ScalarKind) (v : PVal) (t : PTree)
-    (h : scalarNode O k v = .ok t) : t.depth = 0 := by
-  unfold scalarNode at h
-  split at h
-  · exact strNode_depth _ t h
-  · cases h
-    unfold bareNode
-    split
-    · rfl
-    · split <;> rfl
-  · cases h
-  · cases h
-
-theorem member_depth (name : Bytes) (t : PTree) (e : Bytes × Bytes × PTree)
-    (h : member name (.ok t) = .ok (some e)) : e.2.2 = t := by
-  obtain ⟨lit, t', _, ht', hr⟩ := member_ok_inv _ _ _ h
-  cases ht'; cases hr; rfl
-
-/-- the depth facts at fuel `f` -/
-structure TD (env : Env) (O : Oracle) (f : Nat) : Prop where
-  val : ∀ fld v t, v.noJ5 = true → encValue env O f fld v = .ok t → t.depth ≤ f
-  fld : ∀ p m t, noJ5F m = true → encField env O f p m = .ok (some t) → t.depth ≤ f
-  obj : ∀ props m t, noJ5F m = true → encObjectBody env O f props m = .ok t → t.depth ≤ f
-  one : ∀ ops m t, noJ5F m = true → encOneofBody env O f ops m = .ok t → t.depth ≤ f
-  root : ∀ r v t, v.noJ5 = true → encRoot env O f r v = .ok t → t.depth ≤ f
-
-theorem TD_all (env : Env) (O : Oracle) : ∀ f, TD env O f := by
-  intro f
-  induction f with
-  | zero =>
-    refine ⟨?_, ?_, ?_, ?_, ?_⟩
-    · intro fld v t _ h; simp [encValue] at h
-    · intro p m t _ h; simp [encField] at h
-    · intro props m t _ h; simp [encObjectBody] at h
-    · intro ops m t _ h; simp [encOneofBody] at h
-    · intro r v t _ h; simp [encRoot] at h
-  | succ f ih =>
-    refine ⟨?_, ?_, ?_, ?_, ?_⟩
-    · -- values
-      intro fld v t hn h
-      cases fld with
-      | scalar k =>
-        simp only [encValue] at h
-        rw [scalarNode_depth O k v t h]; exact Nat.zero_le _
-      | «enum» ref =>
-        simp only [encValue] at h
-        split at h
-        · split at h
-          · rw [strNode_depth _ t h]; exact Nat.zero_le _
-          · cases h
-        · cases h
-      | object ref =>
-        simp only [encValue] at h
-        split at h
-        · next props fs hfind =>
-          exact Nat.le_succ_of_le (ih.obj props fs t (by simpa [PVal.noJ5] using hn) h)
-        · cases h
-      | oneof ref =>
-        simp only [encValue] at h
-        split at h
-        · next ops fs hfind =>
-          exact Nat.le_succ_of_le (ih.one ops fs t (by simpa [PVal.noJ5] using hn) h)
-        · cases h
-      | any pb =>
-        simp only [encValue] at h
-        cases v <;> simp only [] at h <;> try (cases h)
-        case anyJ5 tn proto j5 ik iroot inner =>
-          simp only [PVal.noJ5, Bool.and_eq_true] at hn
-          split at h
-          · next data hdata =>
-            have hde : data.depth ≤ f := by
-              split at hdata
-              · next hj => simp [hn.1] at hj
-              · split at hdata
-                · split at hdata
-                  · cases hdata
-                  · cases hdata
-                  · exact ih.root iroot inner data hn.2 hdata
-                · cases hdata
-            split at h
-            · next typeLit tnNode valueLit h1 h2 h3 =>
-              cases h
-              simp only [PTree.depth, PMembers.depth]
-              have := strNode_depth _ _ h2
-              omega
-            all_goals cases h
-          · cases h
-          · cases h
-        case anyPb url val ik iroot inner =>
-          simp only [PVal.noJ5] at hn
-          split at h
-          · next data hdata =>
-            have hde : data.depth ≤ f := by
-              split at hdata
-              · next hj => simp at hj
-              · split at hdata
-                · split at hdata
-                  · cases hdata
-                  · cases hdata
-                  · exact ih.root iroot inner data hn hdata
-                · cases hdata
-            split at h
-            · next typeLit tnNode valueLit h1 h2 h3 =>
-              cases h
-              simp only [PTree.depth, PMembers.depth]
-              have := strNode_depth _ _ h2
-              omega
-            all_goals cases h
-          · cases h
-          · cases h
-      | array item =>
-        simp only [encValue] at h
-        split at h
-        · cases h
-        · cases h
-        · cases h
-        · next xs _ _ _ =>
-          cases hr : xs.foldr (fun x acc => consElem (encValue env O f item x) acc)
-              (.ok (.nil .closed)) with
-          | err e => simp [hr] at h
-          | panic w => simp [hr] at h
-          | ok es =>
-            simp only [hr] at h; cases h
-            obtain ⟨ts, hall, rfl⟩ := foldr_consElem_inv _ xs es hr
-            simp only [PTree.depth]
-            apply Nat.succ_le_succ
-            apply elemsOf_depth
-            intro t' ht'
-            obtain ⟨x, hx, hgx⟩ := allEnc_mem _ xs ts hall t' ht'
-            exact ih.val item x t' (noJ5_mem_list xs x (by simpa [PVal.noJ5] using hn) hx) hgx
-        · cases h
-      | map item =>
-        simp only [encValue] at h
-        split at h
-        · cases h
-        · cases h
-        · cases h
-        · next kvs _ _ _ =>
-          cases hr : kvs.foldr (fun kv acc =>
-              consMember (member kv.1 (encValue env O f item kv.2)) acc) (.ok (.nil .closed)) with
-          | err e => simp [hr] at h
-          | panic w => simp [hr] at h
-          | ok ms =>
-            simp only [hr] at h; cases h
-            obtain ⟨es, hall, rfl⟩ := foldr_consMember_map_inv _ kvs ms hr
-            simp only [PTree.depth]
-            apply Nat.succ_le_succ
-            apply membersOf_depth
-            intro e he
-            obtain ⟨kv, hkv, _, _, hgx⟩ := allEncMap_mem _ kvs es hall e he
-            exact ih.val item kv.2 e.2.2 (noJ5_mem_map kvs kv (by simpa [PVal.noJ5] using hn) hkv) hgx
-        · cases h
-    · -- a property
-      intro p m t hn h
-      simp only [encField] at h
-      split at h
-      · split at h
-        · split at h
-          · next ops hfind =>
-            split at h
-            · split at h
-              · next t' ht' =>
-                cases h
-                exact Nat.le_succ_of_le (ih.one ops m _ hn ht')
-              · cases h
-              · cases h
-            · cases h
-          · cases h
-        · cases h
-      · next path hpath =>
-        split at h
-        · cases h
-        · next v hv =>
-          split at h
-          · next t' ht' =>
-            cases h
-            exact Nat.le_succ_of_le (ih.val p.field v _ (noJ5_getPath _ m v hn hv) ht')
-          · cases h
-          · cases h
-    · -- object body
-      intro props m t hn h
-      simp only [encObjectBody] at h
-      split at h
-      · next ms hr =>
-        cases h
-        obtain ⟨es, hall, rfl⟩ := foldr_consMember_inv _ props ms hr
-        simp only [PTree.depth]
-        apply Nat.succ_le_succ
-        apply membersOf_depth
-        intro e he
-        obtain ⟨p, hp, hgp⟩ := allEncProps_mem _ props es hall e he
-        split at hgp
-        · cases hgp
-        · next q hq =>
-          split at hgp
-          · cases hgp
-          · next t' ht' =>
-            rw [member_depth q.jsonName t' e hgp]
-            exact ih.fld q m t' hn ht'
-          · cases hgp
-          · cases hgp
-      · cases h
-      · cases h
-    · -- oneof body
-      intro ops m t hn h
-      simp only [encOneofBody] at h
-      split at h
-      · cases h; simp [PTree.depth, PMembers.depth]
-      · next q0 _ =>
-        split at h
-        · cases h
-        · next q hq =>
-          split at h
-          · next nameNode hnn =>
-            split at h
-            · next typeLit htl =>
-              split at h
-              · next t' ht' =>
-                split at h
-                · next k kraw v hmem =>
-                  cases h
-                  have hv : v = t' := member_depth q.jsonName t' (k, kraw, v) hmem
-                  have h0 := strNode_depth _ _ hnn
-                  have := ih.fld q m t' hn ht'
-                  simp only [PTree.depth, PMembers.depth, hv]
-                  omega
-                · cases h
-                · cases h
-                · cases h
-              · cases h
-              · cases h
-              · cases h
-            · cases h
-            · cases h
-          · cases h
-          · cases h
-      · cases h
-    · -- root
-      intro r v t hn h
-      simp only [encRoot] at h
-      split at h
-      · next props fs hfind =>
-        exact Nat.le_succ_of_le (ih.obj props fs t (by simpa [PVal.noJ5] using hn) h)
-      · next ops fs hfind =>
-        exact Nat.le_succ_of_le (ih.one ops fs t (by simpa [PVal.noJ5] using hn) h)
-      · cases h
-
-/-! ## a representable message of an environment without j5 `Any` holds no `j5_json` -/
-
-mutual
-theorem valOk_noJ5 (env : Env) (O : Oracle) (hj : env.noJ5Any = true) : (v : PVal) → (fld : Field) →
-    valOk env O fld v = true → v.noJ5 = true
-  | .msg fs, fld, h => by
-    simp only [PVal.noJ5]
-    cases fld with
-    | object ref =>
-      obtain ⟨fs', props, hv, _, _, hfok, _, _⟩ := valOk_object env O ref _ h
-      cases hv
-      exact fieldsOk_noJ5 env O hj fs props hfok
-    | oneof ref =>
-      obtain ⟨fs', ops, hv, _, _, hfok, _⟩ := valOk_oneof env O ref _ h
-      cases hv
-      exact fieldsOk_noJ5 env O hj fs ops hfok
-    | _ => simp [valOk] at h
-  | .list xs, fld, h => by
-    simp only [PVal.noJ5]
-    cases fld with
-    | array item =>
-      obtain ⟨xs', hv, hl⟩ := valOk_array env O item _ h
-      cases hv
-      exact listOk_noJ5 env O hj xs item hl
-    | _ => simp [valOk] at h
-  | .map kvs, fld, h => by
-    simp only [PVal.noJ5]
-    cases fld with
-    | map item =>
-      obtain ⟨kvs', hv, hm⟩ := valOk_map env O item _ h
-      cases hv
-      exact mapOk_noJ5 env O hj kvs item [] hm
-    | _ => simp [valOk] at h
-  | .anyJ5 tn proto j5 ik iroot inner, fld, h => by
-    cases fld with
-    | any pb =>
-      cases pb with
-      | true => simp [valOk] at h
-      | false =>
-        obtain ⟨_, _, _, _, hna, _⟩ := valOk_any env O _ h
-        rw [hj] at hna; cases hna
-    | _ => simp [valOk] at h
-  | .anyPb a b c d e, fld, h => by
-    cases fld with
-    | scalar k =>
-      have := scalarOk_not_any O k (.anyPb a b c d e) (Or.inl ⟨a, b, c, d, e, rfl⟩)
-      simp [valOk, this] at h
-    | _ => simp [valOk] at h
-  | .bool _, _, _ => rfl
-  | .int _, _, _ => rfl
-  | .uint _, _, _ => rfl
-  | .f32 _, _, _ => rfl
-  | .f64 _, _, _ => rfl
-  | .str _, _, _ => rfl
-  | .bytes _, _, _ => rfl
-  | .enum _, _, _ => rfl
-  | .ts _ _, _, _ => rfl
-  | .date _ _ _, _, _ => rfl
-  | .dec _, _, _ => rfl
-termination_by v => sizeOf v
-
-theorem fieldsOk_noJ5 (env : Env) (O : Oracle) (hj : env.noJ5Any = true) : (fs : Fields) →
-    (props : List PropDef) → fieldsOk env O props fs = true → noJ5F fs = true
-  | [], _, _ => rfl
-  | (k, v) :: rest, props, h => by
-    rw [fieldsOk_cons] at h
-    simp only [Bool.and_eq_true] at h
-    simp only [noJ5F, Bool.and_eq_true]
-    refine ⟨?_, fieldsOk_noJ5 env O hj rest props h.2⟩
-    have h1 := h.1
-    split at h1
-    · next p _ =>
-      simp only [Bool.and_eq_true] at h1
-      exact valOk_noJ5 env O hj v p.field h1.1
-    · cases v with
-      | msg sub =>
-        simp only [Bool.and_eq_true] at h1
-        simp only [PVal.noJ5]
-        exact fieldsOk_noJ5 env O hj sub _ h1.2
-      | _ => cases h1
-termination_by fs => sizeOf fs
-
-theorem listOk_noJ5 (env : Env) (O : Oracle) (hj : env.noJ5Any = true) : (xs : List PVal) →
-    (item : Field) → listOk env O item xs = true → noJ5L xs = true
-  | [], _, _ => rfl
-  | x :: rest, item, h => by
-    simp only [listOk, Bool.and_eq_true] at h
-    simp only [noJ5L, Bool.and_eq_true]
-    exact ⟨valOk_noJ5 env O hj x item h.1, listOk_noJ5 env O hj rest item h.2⟩
-termination_by xs => sizeOf xs
-
-theorem mapOk_noJ5 (env : Env) (O : Oracle) (hj : env.noJ5Any = true) :
-    (kvs : List (Bytes × PVal)) → (item : Field) → (seen : List Bytes) →
-    mapOk env O item seen kvs = true → noJ5M kvs = true
-  | [], _, _, _ => rfl
-  | (k, v) :: rest, item, seen, h => by
-    simp only [mapOk, Bool.and_eq_true] at h
-    simp only [noJ5M, Bool.and_eq_true]
-    exact ⟨valOk_noJ5 env O hj v item h.1.2, mapOk_noJ5 env O hj rest item _ h.2⟩
-termination_by kvs => sizeOf kvs
-end
-
-/-- **protobuf `Any`, one property, with the depth hypothesis on the message**: as
-`any_pb_roundtrip`, the nesting bound of `encoding/json` discharged by the tree-depth bound
-(`TD_all`): it suffices that the content is nested at most 1664 messages deep
-(`6 · (depth + 1) + 10 ≤ 10000`). -/
+/-- **protobuf `Any`, one property**: for a codec built `WithProtoToAny`, fewer than `maxAnyDepth`
+enclosing `Any` values: a protobuf `Any` whose type URL is `type.googleapis.com/` + a resolvable
+name and whose content is a non-empty representable message `fs` of the resolved root (which the
+codec at `anyDepth + 1` can decode: `hMi`; nested at most 1664 messages deep: `hD`) is written as
+`{"!type": name, "value": data}` with `data` the codec's encoding of `fs`, and the decoder reading
+that value into a protobuf `Any` property stores `Any{type_url, content = fs}` again. (The
+whole-message statement is `roundtrip_bytes`; this is its `Any` step in isolation.) -/
 theorem any_pb_roundtrip' (c : Cfg) (hs : c.env.flat = true) (L : OracleLaws c.O)
-    (hC : c.env.noAny = true ∨ ChunkLaws c.O)
-    (hmode : c.protoToAny = true) (hj : c.env.noJ5Any = true) (hdepth : c.anyDepth < maxAnyDepth)
+    (hmode : c.protoToAny = true) (hdepth : c.anyDepth < maxAnyDepth)
     (props : List PropDef) (p : PropDef) (st : PS) (tn val : Bytes) (iroot : String) (fs : Fields)
     (hf : p.field = .any true) (hp : p.path ≠ []) (hseen : p.jsonName ∉ st.seen)
     (hgb : groupBusy props p st.m = false) (hu : isValidUtf8 tn = true)
     (hres : c.env.resolve tn = some iroot) (hne : fs ≠ [])
     (hok : valOk c.env c.O (.object iroot) (.msg fs) = true ∨
       valOk c.env c.O (.oneof iroot) (.msg fs) = true)
+    (hMi : modeOkF c.protoToAny (6 * (depthFields fs + 1) + 9) (c.anyDepth + 1) fs = true)
     (hD : 6 * (depthFields fs + 1) + 10 ≤ 10000) :
     ∃ t, encValue c.env c.O (6 * (depthFields fs + 1) + 9 + 2) (.any true)
           (.anyPb (anyPrefix ++ tn) val .inn iroot (.msg fs)) = .ok t ∧
@@ -587,23 +60,148 @@ theorem any_pb_roundtrip' (c : Cfg) (hs : c.env.flat = true) (L : OracleLaws c.O
         .ok { m := updPath props p (some (.anyPb (anyPrefixB ++ tn) [] .inn iroot (.msg fs))) st.m,
               seen := p.jsonName :: st.seen } := by
   obtain ⟨data, henc, hdec⟩ := roundtrip_tree_flat_fuel { c with anyDepth := c.anyDepth + 1 } hs L
-    (Or.inr hj) iroot fs hok (6 * (depthFields fs + 1) + 9) (Nat.le_refl _)
-  have hch : (PVal.msg fs).chunksOk c.O = true := by
-    rcases hok with hok | hok
-    · exact valOk_chunksOk _ _ _ _ hok
-    · exact valOk_chunksOk _ _ _ _ hok
+    iroot fs hok (6 * (depthFields fs + 1) + 9) (Nat.le_refl _) hMi
   have hn5 : (PVal.msg fs).noJ5 = true := by
-    rcases hok with hok | hok
-    · exact valOk_noJ5 c.env c.O hj _ _ hok
-    · exact valOk_noJ5 c.env c.O hj _ _ hok
-  have hE : data.Enc := encRoot_enc c.env c.O (floatTextOk_of_laws c.O L) iroot (.msg fs) data
-    (hC.elim Or.inl (fun h => Or.inr ⟨h, hch⟩)) _ henc
-  have hdd : data.depth ≤ 10000 :=
-    Nat.le_trans ((TD_all c.env c.O _).root iroot (.msg fs) data hn5 henc) hD
+    have h := hMi
+    rw [hmode] at h
+    have := modeOkF_noJ5 _ _ fs h
+    simpa [PVal.noJ5] using this
+  obtain ⟨hdd, hcc⟩ := (TD_all c.env c.O _).root iroot (.msg fs) data hn5 henc
   obtain ⟨tlit, nlit, vlit, he⟩ := enc_any_pb c.env c.O (6 * (depthFields fs + 1) + 9)
     (anyPrefix ++ tn) val iroot (.msg fs) data henc (by rw [trimPrefix_append]; exact hu)
   rw [trimPrefix_append] at he
   exact ⟨_, he, dec_any_pb c hmode hdepth props p st tn tlit nlit vlit data iroot fs hf hp hseen hgb
-    (enc_complete data hE) hdd hres hdec hne⟩
+    hcc (Nat.le_trans hdd hD) hres hdec hne⟩
+
+/-! ## messages of an environment without `Any` can be decoded by every codec -/
+
+theorem exposedOps_noAny (env : Env) (hna : env.noAny = true) (p0 q : PropDef)
+    (hq : q ∈ exposedOps env p0) : fieldNoAny q.field = true := by
+  unfold exposedOps at hq
+  split at hq
+  · next ref _ _ =>
+    split at hq
+    · next ops hfind => exact find_noAny env hna ref ops (Or.inr hfind) q hq
+    · cases hq
+  · cases hq
+
+mutual
+theorem valOk_modeOk (env : Env) (O : Oracle) (hna : env.noAny = true) (p : Bool) (F : Nat) :
+    (v : PVal) → (fld : Field) → (d : Nat) → fieldNoAny fld = true → valOk env O fld v = true →
+    modeOk p F d v = true
+  | .msg fs, fld, d, hf, h => by
+    simp only [modeOk]
+    cases fld with
+    | object ref =>
+      obtain ⟨fs', props, hv, hfind, _, hfok, _, _⟩ := valOk_object env O ref _ h
+      cases hv
+      exact fieldsOk_modeOk env O hna p F fs props d (find_noAny env hna ref props (Or.inl hfind)) hfok
+    | oneof ref =>
+      obtain ⟨fs', ops, hv, hfind, _, hfok, _⟩ := valOk_oneof env O ref _ h
+      cases hv
+      exact fieldsOk_modeOk env O hna p F fs ops d (find_noAny env hna ref ops (Or.inr hfind)) hfok
+    | _ => simp [valOk] at h
+  | .list xs, fld, d, hf, h => by
+    simp only [modeOk]
+    cases fld with
+    | array item =>
+      obtain ⟨xs', hv, hl⟩ := valOk_array env O item _ h
+      cases hv
+      exact listOk_modeOk env O hna p F xs item d (by simpa [fieldNoAny] using hf) hl
+    | _ => simp [valOk] at h
+  | .map kvs, fld, d, hf, h => by
+    simp only [modeOk]
+    cases fld with
+    | map item =>
+      obtain ⟨kvs', hv, hm⟩ := valOk_map env O item _ h
+      cases hv
+      exact mapOk_modeOk env O hna p F kvs item [] d (by simpa [fieldNoAny] using hf) hm
+    | _ => simp [valOk] at h
+  | .anyJ5 a b c e f g, fld, d, hf, h => by
+    cases fld with
+    | any pb => simp [fieldNoAny] at hf
+    | _ => simp [valOk] at h
+  | .anyPb a b c e f, fld, d, hf, h => by
+    cases fld with
+    | any pb => simp [fieldNoAny] at hf
+    | _ => simp [valOk] at h
+  | .bool _, _, _, _, _ => by simp [modeOk]
+  | .int _, _, _, _, _ => by simp [modeOk]
+  | .uint _, _, _, _, _ => by simp [modeOk]
+  | .f32 _, _, _, _, _ => by simp [modeOk]
+  | .f64 _, _, _, _, _ => by simp [modeOk]
+  | .str _, _, _, _, _ => by simp [modeOk]
+  | .bytes _, _, _, _, _ => by simp [modeOk]
+  | .enum _, _, _, _, _ => by simp [modeOk]
+  | .ts _ _, _, _, _, _ => by simp [modeOk]
+  | .date _ _ _, _, _, _, _ => by simp [modeOk]
+  | .dec _, _, _, _, _ => by simp [modeOk]
+termination_by v => sizeOf v
+
+theorem fieldsOk_modeOk (env : Env) (O : Oracle) (hna : env.noAny = true) (p : Bool) (F : Nat) :
+    (fs : Fields) → (props : List PropDef) → (d : Nat) →
+    (∀ q ∈ props, fieldNoAny q.field = true) → fieldsOk env O props fs = true →
+    modeOkF p F d fs = true
+  | [], _, _, _, _ => by simp [modeOkF]
+  | (k, v) :: rest, props, d, hp, h => by
+    rw [fieldsOk_cons] at h
+    simp only [Bool.and_eq_true] at h
+    simp only [modeOkF, Bool.and_eq_true]
+    refine ⟨?_, fieldsOk_modeOk env O hna p F rest props d hp h.2⟩
+    have h1 := h.1
+    split at h1
+    · next q hq =>
+      simp only [Bool.and_eq_true] at h1
+      have hqf : fieldNoAny q.field = true := by
+        rcases leafProp_inv' env props k q hq with ⟨hqm, _⟩ | ⟨p0, _, hq0, _⟩
+        · exact hp q hqm
+        · exact exposedOps_noAny env hna p0 q hq0
+      exact valOk_modeOk env O hna p F v q.field d hqf h1.1
+    · cases v with
+      | msg sub =>
+        simp only [Bool.and_eq_true] at h1
+        simp only [modeOk]
+        refine fieldsOk_modeOk env O hna p F sub _ d ?_ h1.2
+        intro q' hq'
+        obtain ⟨q, hqm, _, _, _, rfl⟩ := mem_propsUnder k props q' hq'
+        exact hp q hqm
+      | _ => cases h1
+termination_by fs => sizeOf fs
+
+theorem listOk_modeOk (env : Env) (O : Oracle) (hna : env.noAny = true) (p : Bool) (F : Nat) :
+    (xs : List PVal) → (item : Field) → (d : Nat) → fieldNoAny item = true →
+    listOk env O item xs = true → modeOkL p F d xs = true
+  | [], _, _, _, _ => by simp [modeOkL]
+  | x :: rest, item, d, hf, h => by
+    simp only [listOk, Bool.and_eq_true] at h
+    simp only [modeOkL, Bool.and_eq_true]
+    exact ⟨valOk_modeOk env O hna p F x item d hf h.1, listOk_modeOk env O hna p F rest item d hf h.2⟩
+termination_by xs => sizeOf xs
+
+theorem mapOk_modeOk (env : Env) (O : Oracle) (hna : env.noAny = true) (p : Bool) (F : Nat) :
+    (kvs : List (Bytes × PVal)) → (item : Field) → (seen : List Bytes) → (d : Nat) →
+    fieldNoAny item = true → mapOk env O item seen kvs = true → modeOkM p F d kvs = true
+  | [], _, _, _, _, _ => by simp [modeOkM]
+  | (k, v) :: rest, item, seen, d, hf, h => by
+    simp only [mapOk, Bool.and_eq_true] at h
+    simp only [modeOkM, Bool.and_eq_true]
+    exact ⟨valOk_modeOk env O hna p F v item d hf h.1.2,
+      mapOk_modeOk env O hna p F rest item _ d hf h.2⟩
+termination_by kvs => sizeOf kvs
+end
+
+/-- **a representable message of an environment without `Any` fields can be decoded by every
+codec** (so for such environments the `canDecode` hypothesis of the round-trip theorems is void) -/
+theorem canDecode_of_noAny (c : Cfg) (hna : c.env.noAny = true) (root : String) (m : Fields)
+    (hok : valOk c.env c.O (.object root) (.msg m) = true ∨
+      valOk c.env c.O (.oneof root) (.msg m) = true) : c.canDecode m := by
+  unfold Cfg.canDecode
+  rcases hok with h | h
+  · have := valOk_modeOk c.env c.O hna c.protoToAny (6 * (depthFields m + 1) + 9) (.msg m)
+      (.object root) c.anyDepth rfl h
+    simpa [modeOk] using this
+  · have := valOk_modeOk c.env c.O hna c.protoToAny (6 * (depthFields m + 1) + 9) (.msg m)
+      (.oneof root) c.anyDepth rfl h
+    simpa [modeOk] using this
 
 end J5V.Codec
